@@ -382,16 +382,267 @@ Proof.
 Qed.
 
 (* ------------------------------------------------------------------ the softmax family *)
-(* domains: placeholders are refined below operator by operator *)
-Definition lse_dom (sx sy : tshape) (dim : nat) (xs : list (list R)) : Prop := False.
-Definition sce_dom (sx sy : tshape) (dim : nat) (xs : list (list R)) : Prop := False.
-Definition ssce_dom (sx sp : tshape) (ids : list nat) (dim : nat) (xs : list (list R)) : Prop := False.
-Lemma lse_deriv sx sy dim : desc_deriv (lse_desc sx sy dim) (lse_dom sx sy dim).
-Proof. intros xs dxs _ _ []. Qed.
+Lemma gsum_deriv (f : nat -> R -> R) (f' : nat -> R) g : (forall s, In s g -> is_derive (f s) 0 (f' s)) ->
+  is_derive (fun t => gsum (fun s => f s t) g) 0 (gsum f' g).
+Proof.
+  induction g as [|s g IH]; intro H; cbn [gsum fold_right]; [apply (is_derive_const 0 0)|].
+  apply (is_derive_plus (K := R_AbsRing) (V := R_NormedModule) (f s) (fun t => gsum (fun s0 => f s0 t) g) 0 (f' s) (gsum f' g)).
+  - apply H. left. reflexivity.
+  - apply IH. intros s0 Hs0. apply H. right. exact Hs0.
+Qed.
+Lemma sum_exp_gsum (a : nat -> R) g : Stable.sum_exp (map a g) = gsum (fun s => exp (a s)) g.
+Proof. induction g as [|s g IH]; cbn [map Stable.sum_exp gsum fold_right]; [reflexivity|]. fold (Stable.sum_exp (map a g)) (gsum (fun s => exp (a s)) g). rewrite IH. reflexivity. Qed.
+Lemma gsum_pos h g : g <> [] -> (forall s, 0 < h s) -> 0 < gsum h g.
+Proof.
+  intros Hne Hp. destruct g as [|s g]; [congruence|]. clear Hne. cbn [gsum fold_right]. fold (gsum h g).
+  assert (0 <= gsum h g). { induction g as [|s0 g IH]; cbn [gsum fold_right]; [lra|]. fold (gsum h g). pose proof (Hp s0). lra. }
+  pose proof (Hp s). lra.
+Qed.
+Lemma gsum_scal h c g : gsum h g / c = gsum (fun s => h s / c) g.
+Proof. induction g as [|s g IH]; cbn [gsum fold_right]; [unfold Rdiv; ring|]. fold (gsum h g) (gsum (fun s => h s / c) g). rewrite <- IH. unfold Rdiv. ring. Qed.
+Lemma exp_minus_ln a S : 0 < S -> exp (a - ln S) = exp a / S.
+Proof. intro H. unfold Rminus. rewrite exp_plus, exp_Ropp, exp_ln by exact H. reflexivity. Qed.
+
+(* the group-level derivative of logsumexp: sum_s softmax_s du_s *)
+Lemma lse_group_deriv (u : nat -> R -> R) (du : nat -> R) g : g <> [] -> (forall s, In s g -> is_derive (u s) 0 (du s)) ->
+  is_derive (fun t => Stable.lse_fold (map (fun s => u s t) g)) 0
+            (gsum (fun s => exp (u s 0 - Stable.lse_fold (map (fun r => u r 0) g)) * du s) g).
+Proof.
+  intros Hne Hu.
+  assert (Hne' : forall t, map (fun s => u s t) g <> []) by (intro t; destruct g; [congruence|discriminate]).
+  set (S := gsum (fun s => exp (u s 0)) g).
+  assert (HS : 0 < S) by (apply gsum_pos; [exact Hne|intro s; apply exp_pos]).
+  apply (is_derive_ext (fun t => ln (gsum (fun s => exp (u s t)) g))).
+  { intro t. rewrite (Stable.logsumexp_pairwise_eq _ (Hne' t)), sum_exp_gsum. reflexivity. }
+  rewrite (Stable.logsumexp_pairwise_eq _ (Hne' 0)), sum_exp_gsum. fold S.
+  apply (is_derive_eq _ _ (gsum (fun s => exp (u s 0) * du s) g * / S)).
+  { fold (Rdiv (gsum (fun s => exp (u s 0) * du s) g) S). rewrite gsum_scal. apply gsum_ext. intros s _. rewrite (exp_minus_ln _ S HS). unfold Rdiv. ring. }
+  apply (is_derive_comp ln (fun t => gsum (fun s => exp (u s t)) g) 0 (/ S) (gsum (fun s => exp (u s 0) * du s) g)).
+  - apply is_derive_ln. exact HS.
+  - apply (gsum_deriv (fun s t => exp (u s t)) (fun s => exp (u s 0) * du s) g). intros s Hs.
+    apply (is_derive_eq _ _ (du s * exp (u s 0))); [ring|].
+    apply (is_derive_comp exp (u s) 0 (exp (u s 0)) (du s) (is_derive_exp _) (Hu s Hs)).
+Qed.
+
+Lemma lse_deriv sx sy dim : desc_deriv (lse_desc sx sy dim) (fun _ => True).
+Proof.
+  intros xs dxs Hx Hok _ r. cbn [lse_desc d_fw d_jvp d_ok] in *. apply cderiv_single. rewrite !hd_nth0. intro i.
+  set (p := axis_red sx sy dim). set (x := fun t => nth 0 (xs t) []). set (dx := nth 0 dxs []).
+  assert (HB : (0 < tbatch sx)%nat) by (pose proof Hok as H; unfold sum_ok in H; bsplit; assumption).
+  pose proof (axis_seq sx sy dim Hok) as Hseq. fold p in Hseq.
+  destruct (lt_dec i (length p)) as [Hi|Hi].
+  - set (e := nth i p (0%nat, [])). assert (He : In e p) by (apply nth_In; exact Hi).
+    assert (Ei : fst e = i) by (apply (axis_nth_fst sx sy dim Hok i Hi)).
+    destruct (axis_group_ok sx sy dim Hok e He) as (Hne & Hbnd).
+    apply (is_derive_ext (fun t => Stable.lse_fold (map (fun s => nth s (x t) 0) (snd e)))).
+    { intro t. rewrite hd_nth0. fold (x t). rewrite <- Ei at 1. rewrite (lse_vals_nth sx sy dim Hok (x t) e He). reflexivity. }
+    change (nth 0 (xs 0) []) with (x 0). change (lse_w sx sy dim (x 0) (lse_vals sx sy dim (x 0))) with (softmax_v sx sy dim (x 0)).
+    rewrite <- Ei at 1. rewrite (axis_sum_nth sx sy dim Hok _ e He).
+    rewrite (gsum_ext _ (fun s => exp (nth s (x 0) 0 - Stable.lse_fold (map (fun r => nth r (x 0) 0) (snd e))) * nth s dx 0)).
+    + apply (lse_group_deriv (fun s t => nth s (x t) 0) (fun s => nth s dx 0) (snd e) Hne). intros s _. apply (Hx 0%nat s).
+    + intros s Hs. rewrite ew2_nth by (try exact HB; apply (Hbnd s Hs)). rewrite (softmax_nth sx sy dim Hok (x 0) e s He Hs). reflexivity.
+  - assert (Hn : length p = tsize sy) by (apply (sequential_length p _ Hseq)).
+    rewrite nth_overflow.
+    2:{ unfold axis_sum. destruct (sum_ok_pair sx sy dim Hok) as (_ & _ & Hb).
+        rewrite (scatter_length 0 Rplus _ _ (zerosR (tsize sy)) (tsize sx)); rewrite repeat_length; [lia|exact Hb]. }
+    apply (is_derive_ext (fun _ => 0)); [|apply (is_derive_const 0 0)].
+    intro t. rewrite nth_overflow; [reflexivity|]. unfold lse_vals. rewrite map_length. fold p. lia.
+Qed.
+
+(* ---- dense softmax cross entropy: the derivative is the tangent PLUS (sum_axis t - 1) * sum_axis(softmax * dx) ---- *)
+Lemma gsum_split1 (a b c d : nat -> R) Q g :
+  gsum (fun s => a s * b s + c s * (d s - Q)) g = gsum (fun s => a s * b s) g + gsum (fun s => c s * d s) g - Q * gsum c g.
+Proof. induction g as [|s g IH]; cbn [gsum fold_right]; [ring|]. fold (gsum (fun s => a s * b s + c s * (d s - Q)) g) (gsum (fun s => a s * b s) g) (gsum (fun s => c s * d s) g) (gsum c g). rewrite IH. ring. Qed.
+Lemma gsum_split2 (e c d a b : nat -> R) g :
+  gsum (fun s => (e s - c s) * d s - b s * a s) g = gsum (fun s => e s * d s) g - gsum (fun s => c s * d s) g - gsum (fun s => a s * b s) g.
+Proof. induction g as [|s g IH]; cbn [gsum fold_right]; [ring|]. fold (gsum (fun s => (e s - c s) * d s - b s * a s) g) (gsum (fun s => e s * d s) g) (gsum (fun s => c s * d s) g) (gsum (fun s => a s * b s) g). rewrite IH. ring. Qed.
+
+Lemma sce_group_deriv (u v : nat -> R -> R) (du dv : nat -> R) g : g <> [] ->
+  (forall s, In s g -> is_derive (u s) 0 (du s)) -> (forall s, In s g -> is_derive (v s) 0 (dv s)) ->
+  let L0 := Stable.lse_fold (map (fun r => u r 0) g) in
+  is_derive (fun t => - gsum (fun s => v s t * (u s t - Stable.lse_fold (map (fun r => u r t) g))) g) 0
+    (gsum (fun s => (exp (u s 0 - L0) - v s 0) * du s - (u s 0 - L0) * dv s) g
+     + (gsum (fun s => v s 0) g - 1) * gsum (fun s => exp (u s 0 - L0) * du s) g).
+Proof.
+  intros Hne Hu Hv L0. set (Q := gsum (fun s => exp (u s 0 - L0) * du s) g).
+  pose proof (lse_group_deriv u du g Hne Hu) as Hl. fold L0 in Hl. fold Q in Hl.
+  apply (is_derive_eq _ _ (- gsum (fun s => dv s * (u s 0 - L0) + v s 0 * (du s - Q)) g)).
+  { rewrite gsum_split1, gsum_split2. unfold Q. ring. }
+  apply (is_derive_opp (K := R_AbsRing) (V := R_NormedModule) (fun t => gsum (fun s => v s t * (u s t - Stable.lse_fold (map (fun r => u r t) g))) g) 0).
+  apply (gsum_deriv (fun s t => v s t * (u s t - Stable.lse_fold (map (fun r => u r t) g))) (fun s => dv s * (u s 0 - L0) + v s 0 * (du s - Q)) g).
+  intros s Hs.
+  apply (is_derive_mult (v s) (fun t => u s t - Stable.lse_fold (map (fun r => u r t) g)) 0 (dv s) (du s - Q) (Hv s Hs)); [|intros; apply Rmult_comm].
+  apply (is_derive_minus (K := R_AbsRing) (V := R_NormedModule) (u s) (fun t => Stable.lse_fold (map (fun r => u r t) g)) 0 (du s) Q (Hu s Hs) Hl).
+Qed.
+
+(* the correction term of output i *)
+Definition sce_corr (sx sy : tshape) (dim : nat) (x t dx : list R) (i : nat) : R :=
+  let e := nth i (axis_red sx sy dim) (0%nat, []) in
+  (gsum (fun s => nth s t 0) (snd e) - 1) * gsum (fun s => nth s (softmax_v sx sy dim x) 0 * nth s dx 0) (snd e).
+
+Lemma sce_deriv_gen sx sy dim (xs : R -> list (list R)) (dxs : list (list R)) :
+  (forall k, cderiv (fun t => nth k (xs t) []) (nth k dxs [])) -> sum_ok sx sy dim = true ->
+  forall i, (i < length (axis_red sx sy dim))%nat ->
+    is_derive (fun t => nth i (nth 0 (d_fw (sce_desc sx sy dim) (xs t)) []) 0) 0
+      (nth i (nth 0 (d_jvp (sce_desc sx sy dim) (xs 0) dxs) []) 0
+       + sce_corr sx sy dim (nth 0 (xs 0) []) (nth 1 (xs 0) []) (nth 0 dxs []) i).
+Proof.
+  intros Hx Hok i Hi. cbn [sce_desc d_fw d_jvp nth].
+  set (p := axis_red sx sy dim) in *. set (x := fun t => nth 0 (xs t) []). set (tt := fun t => nth 1 (xs t) []).
+  set (dx := nth 0 dxs []). set (dt := nth 1 dxs []).
+  assert (HB : (0 < tbatch sx)%nat) by (pose proof Hok as H; unfold sum_ok in H; bsplit; assumption).
+  pose proof (axis_seq sx sy dim Hok) as Hseq. fold p in Hseq.
+  assert (Hn : length p = tsize sy) by (apply (sequential_length p _ Hseq)).
+  set (e := nth i p (0%nat, [])). assert (He : In e p) by (apply nth_In; exact Hi).
+  assert (Ei : fst e = i) by (apply (axis_nth_fst sx sy dim Hok i Hi)).
+  destruct (axis_group_ok sx sy dim Hok e He) as (Hne & Hbnd).
+  apply (is_derive_ext (fun t => - gsum (fun s => nth s (tt t) 0 * (nth s (x t) 0 - Stable.lse_fold (map (fun r => nth r (x t) 0) (snd e)))) (snd e))).
+  { intro t. fold (x t) (tt t). rewrite (un_eval_nth 0 fw_negate (tsize sy)) by lia. unfold fw_negate. f_equal.
+    rewrite <- Ei at 1. rewrite (axis_sum_nth sx sy dim Hok _ e He). apply gsum_ext. intros s Hs.
+    rewrite ew2_nth by (try exact HB; apply (Hbnd s Hs)). rewrite (log_softmax_nth sx sy dim Hok (x t) e s He Hs). reflexivity. }
+  unfold sce_corr. fold p e. change (nth 0 (xs 0) []) with (x 0). change (nth 1 (xs 0) []) with (tt 0).
+  rewrite <- Ei at 1. rewrite (axis_sum_nth sx sy dim Hok _ e He).
+  rewrite (gsum_ext _ (fun s => (exp (nth s (x 0) 0 - Stable.lse_fold (map (fun r => nth r (x 0) 0) (snd e))) - nth s (tt 0) 0) * nth s dx 0
+                               - (nth s (x 0) 0 - Stable.lse_fold (map (fun r => nth r (x 0) 0) (snd e))) * nth s dt 0) (snd e)).
+  2:{ intros s Hs. pose proof (Hbnd s Hs) as Hb. rewrite !ew2_nth by (try exact HB; exact Hb).
+      rewrite (softmax_nth sx sy dim Hok (x 0) e s He Hs), (log_softmax_nth sx sy dim Hok (x 0) e s He Hs). reflexivity. }
+  rewrite (gsum_ext (fun s => nth s (softmax_v sx sy dim (x 0)) 0 * nth s dx 0)
+                    (fun s => exp (nth s (x 0) 0 - Stable.lse_fold (map (fun r => nth r (x 0) 0) (snd e))) * nth s dx 0) (snd e)).
+  2:{ intros s Hs. rewrite (softmax_nth sx sy dim Hok (x 0) e s He Hs). reflexivity. }
+  apply (sce_group_deriv (fun s t => nth s (x t) 0) (fun s t => nth s (tt t) 0) (fun s => nth s dx 0) (fun s => nth s dt 0) (snd e) Hne).
+  - intros s _. apply (Hx 0%nat s).
+  - intros s _. apply (Hx 1%nat s).
+Qed.
+
+(* the target sums to 1 along the axis, in every slice *)
+Definition sce_dom (sx sy : tshape) (dim : nat) (xs : list (list R)) : Prop :=
+  forall e, In e (axis_red sx sy dim) -> gsum (fun s => nth s (nth 1 xs []) 0) (snd e) = 1.
 Lemma sce_deriv sx sy dim : desc_deriv (sce_desc sx sy dim) (sce_dom sx sy dim).
-Proof. intros xs dxs _ _ []. Qed.
-Lemma ssce_deriv sx sp ids dim : desc_deriv (ssce_desc sx sp ids dim) (ssce_dom sx sp ids dim).
-Proof. intros xs dxs _ _ []. Qed.
+Proof.
+  intros xs dxs Hx Hok Hdom r. destruct r as [|r].
+  - intro i. destruct (lt_dec i (length (axis_red sx sy dim))) as [Hi|Hi].
+    + pose proof (sce_deriv_gen sx sy dim xs dxs Hx Hok i Hi) as H.
+      unfold sce_corr in H. rewrite (Hdom _ (nth_In _ _ Hi)) in H.
+      refine (is_derive_eq _ _ _ _ _ H). ring.
+    + cbn [sce_desc d_fw d_jvp nth].
+      assert (Hn : length (axis_red sx sy dim) = tsize sy) by (apply (sequential_length _ _ (axis_seq sx sy dim Hok))).
+      rewrite nth_overflow.
+      2:{ unfold axis_sum. destruct (sum_ok_pair sx sy dim Hok) as (_ & _ & Hb).
+          rewrite (scatter_length 0 Rplus _ _ (zerosR (tsize sy)) (tsize sx)); rewrite repeat_length; [lia|exact Hb]. }
+      apply (is_derive_ext (fun _ => 0)); [|apply (is_derive_const 0 0)].
+      intro t. rewrite nth_overflow; [reflexivity|]. unfold un_eval, identity_pairs, range. rewrite !map_length, seq_length. lia.
+  - cbn [sce_desc d_fw d_jvp].
+    match goal with |- cderiv _ (nth (S r) [?J] []) => replace (nth (S r) [J] []) with (@nil R) by (destruct r; reflexivity) end.
+    apply (cderiv_ext (fun _ => [])); [intro t; destruct r; reflexivity|apply cderiv_nil].
+Qed.
+
+(* known finding D11: without  sum_axis t = 1  the dense BACKWARD(SoftmaxCrossEntropy) is NOT the
+   derivative of the forward value.  Witness: x = (1/2, -1/4), t = (2, 0), direction dx = (1, 0). *)
+Definition d11_sx : tshape := mkT [2%nat] 1.
+Definition d11_sy : tshape := mkT [1%nat] 1.
+Definition d11_xs (t : R) : list (list R) := [[1 / 2 + t; - (1 / 4)]; [2; 0]].
+Definition d11_dxs : list (list R) := [[1; 0]; [0; 0]].
+Theorem sce_backward_refuted_without_normalisation :
+  sum_ok d11_sx d11_sy 0 = true /\
+  (forall k, cderiv (fun t => nth k (d11_xs t) []) (nth k d11_dxs [])) /\
+  ~ cderiv (fun t => nth 0 (d_fw (sce_desc d11_sx d11_sy 0) (d11_xs t)) [])
+           (nth 0 (d_jvp (sce_desc d11_sx d11_sy 0) (d11_xs 0) d11_dxs) []).
+Proof.
+  assert (Hok : sum_ok d11_sx d11_sy 0 = true) by reflexivity.
+  assert (Hx : forall k, cderiv (fun t => nth k (d11_xs t) []) (nth k d11_dxs [])).
+  { intros [|[|k]] i; unfold d11_xs, d11_dxs; cbn [nth].
+    - destruct i as [|[|i]]; cbn [nth].
+      + auto_derive; [exact I|ring].
+      + apply (is_derive_const (- (1 / 4)) 0).
+      + destruct i; apply (is_derive_const 0 0).
+    - destruct i as [|[|i]]; cbn [nth]; [apply (is_derive_const 2 0)|apply (is_derive_const 0 0)|destruct i; apply (is_derive_const 0 0)].
+    - destruct k; destruct i; apply (is_derive_const 0 0). }
+  split; [exact Hok|split; [exact Hx|]]. intro H.
+  assert (Hi : (0 < length (axis_red d11_sx d11_sy 0))%nat) by (vm_compute; lia).
+  pose proof (sce_deriv_gen d11_sx d11_sy 0 d11_xs d11_dxs Hx Hok 0%nat Hi) as G.
+  pose proof (is_derive_unique _ _ _ G) as E1. pose proof (is_derive_unique _ _ _ (H 0%nat)) as E2. pose proof (eq_trans (eq_sym E1) E2) as E3.
+  assert (Hc : sce_corr d11_sx d11_sy 0 (nth 0 (d11_xs 0) []) (nth 1 (d11_xs 0) []) (nth 0 d11_dxs []) 0 = 0) by lra.
+  clear - Hc Hok. unfold sce_corr in Hc.
+  assert (Ep : axis_red d11_sx d11_sy 0 = [(0%nat, [0%nat; 1%nat])]) by (vm_compute; reflexivity).
+  rewrite Ep in Hc. cbn [nth snd gsum fold_right d11_xs d11_dxs] in Hc.
+  assert (He : In (0%nat, [0%nat; 1%nat]) (axis_red d11_sx d11_sy 0)) by (rewrite Ep; left; reflexivity).
+  rewrite (softmax_nth d11_sx d11_sy 0 Hok _ (0%nat, [0%nat; 1%nat]) 0%nat He (or_introl eq_refl)) in Hc.
+  match type of Hc with context [exp ?z * 1] => pose proof (exp_pos z) as Hp; set (w := exp z) in * end.
+  nra.
+Qed.
+
+(* ---- sparse softmax cross entropy: output i reads -log_softmax at the picked element of ITS slice ---- *)
+Lemma ssce_picked sx sp ids dim : ssce_ok sx sp ids dim = true -> forall i, (i < tsize sp)%nat ->
+  exists s e, In (i, (0%nat, s)) (pick_fw sx sp ids dim) /\ In e (axis_red sx sp dim) /\ fst e = i /\ In s (snd e).
+Proof.
+  intros Hok i Hi. unfold ssce_ok in Hok. apply andb_prop in Hok. destruct Hok as [Hok HBp]. apply andb_prop in Hok. destruct Hok as [Hsum Hpick].
+  pose proof Hpick as Hp. unfold pick_ok in Hp. bsplit.
+  match goal with H : forallb _ ids = true |- _ => rename H into Hids end. rewrite forallb_forall in Hids.
+  repeat match goal with H : (_ =? _)%nat || (_ =? _)%nat = true |- _ => apply orb_eqb in H end.
+  match goal with H : tbatch sx = _ \/ _ |- _ => rename H into Hbc end.
+  match goal with H : length ids = _ \/ _ |- _ => rename H into Hic end.
+  match goal with H : tvolume sp = _ |- _ => rename H into Hvp end.
+  match goal with H : tvolume sx = _ |- _ => rename H into Hvx end.
+  match goal with H : (0 < tlower sp dim)%nat |- _ => rename H into Hb0 end.
+  set (base := tlower sp dim) in *. set (n := tget sx dim) in *. set (R' := (tvolume sp / base)%nat) in *. set (B := tbatch sp) in *.
+  assert (Hidn : forall b, (b < length ids)%nat -> (nth b ids 0%nat < n)%nat) by (intros b Hb; apply Nat.ltb_lt; apply Hids; apply nth_In; exact Hb).
+  pose proof (pick_fw_sequential sx sp ids dim base n R' B (tbatch sx) eq_refl eq_refl Hvp Hvx eq_refl eq_refl Hbc Hic Hidn Hb0) as Hseq.
+  (* the entry of output i *)
+  assert (Hex : exists ks, In (i, ks) (pick_fw sx sp ids dim)).
+  { unfold sequential in Hseq. assert (Hin : In i (map fst (pick_fw sx sp ids dim))) by (rewrite Hseq; apply in_seq; lia).
+    apply in_map_iff in Hin. destruct Hin as ([d ks] & E & Hin). cbn [fst] in E. subst d. exists ks. exact Hin. }
+  destruct Hex as ([k s] & Hin).
+  pose proof (proj1 (pick_fw_spec sx sp ids dim base n R' B (tbatch sx) eq_refl eq_refl Hvp Hvx eq_refl eq_refl Hbc Hic Hidn Hb0 i k s) Hin)
+    as (low & high & b & Hl & Hh & Hb & -> & Ei & Es).
+  (* the reduction group of output i *)
+  pose proof Hsum as Hs. unfold sum_ok in Hs. bsplit.
+  match goal with H : tlower sp dim = tlower sx dim |- _ => rename H into Hbx end.
+  match goal with H : tsize sp = _ |- _ => rename H into Hsp end.
+  match goal with H : tsize sx = _ |- _ => rename H into Hsx end.
+  fold base in Hbx. rewrite <- Hbx in Hsp, Hsx. fold n in Hsx. set (Rt := (tsize sp / base)%nat) in *.
+  assert (HR : (0 < R')%nat) by lia.
+  assert (HRt : Rt = (B * R')%nat).
+  { unfold tsize in Hsp. fold B in Hsp. rewrite Hvp in Hsp. nia. }
+  assert (HBx : tbatch sx = B).
+  { unfold tsize in Hsx. rewrite Hvx, HRt in Hsx. assert (0 < n)%nat by assumption. nia. }
+  assert (Ei' : i = flat base 1 low 0 (high + R' * b)) by (rewrite flat_sample; lia).
+  assert (Es' : s = flat base n low (nth (bidx (length ids) b) ids 0%nat) (high + R' * b)).
+  { rewrite flat_sample. rewrite Es, HBx, (bidx_same B b Hb). reflexivity. }
+  set (g := axis_group base n low (high + R' * b)).
+  assert (He : In (i, g) (axis_red sx sp dim)).
+  { apply (axis_red_spec sx sp dim base n Rt); auto. exists low, (high + R' * b)%nat. repeat split; auto. rewrite HRt. nia. }
+  exists s, (i, g). split; [exact Hin|split; [exact He|split; [reflexivity|]]].
+  cbn [snd]. unfold g, axis_group. apply In_map_range. exists (nth (bidx (length ids) b) ids 0%nat). split; [|exact Es'].
+  apply Hidn. apply (bidx_lt _ B b Hb Hic).
+Qed.
+
+Lemma ssce_deriv sx sp ids dim : desc_deriv (ssce_desc sx sp ids dim) (fun _ => True).
+Proof.
+  intros xs dxs Hx Hok _ r. cbn [ssce_desc d_fw d_jvp d_ok] in *. apply cderiv_single. rewrite !hd_nth0. intro i.
+  set (x := fun t => nth 0 (xs t) []). set (dx := nth 0 dxs []).
+  pose proof Hok as Hok'. unfold ssce_ok in Hok'. apply andb_prop in Hok'. destruct Hok' as [Hok' HBp]. apply andb_prop in Hok'. destruct Hok' as [Hsum Hpick].
+  apply Nat.ltb_lt in HBp.
+  assert (HB : (0 < tbatch sx)%nat) by (pose proof Hsum as H; unfold sum_ok in H; bsplit; assumption).
+  destruct (pick_ok_pair sx sp ids dim Hpick) as (_ & Hcov & _).
+  destruct (lt_dec i (tsize sp)) as [Hi|Hi].
+  - destruct (ssce_picked sx sp ids dim Hok i Hi) as (s & e & Hin & He & Ei & Hs).
+    destruct (axis_group_ok sx sp dim Hsum e He) as (Hne & Hbnd). pose proof (Hbnd s Hs) as Hsb.
+    apply (is_derive_ext (fun t => - (nth s (x t) 0 - Stable.lse_fold (map (fun r => nth r (x t) 0) (snd e))))).
+    { intro t. rewrite hd_nth0. fold (x t). rewrite (gather_nth 0 _ _ _ i 0%nat s Hcov Hin).
+      rewrite (un_eval_nth 0 fw_negate) by exact Hsb. rewrite (log_softmax_nth sx sp dim Hsum (x t) e s He Hs). reflexivity. }
+    rewrite ew2_nth by assumption. change (nth 0 (xs 0) []) with (x 0).
+    rewrite (gather_nth 0 _ _ dx i 0%nat s Hcov Hin). rewrite <- Ei at 1. rewrite (axis_sum_nth sx sp dim Hsum _ e He).
+    rewrite (gsum_ext _ (fun r => exp (nth r (x 0) 0 - Stable.lse_fold (map (fun r0 => nth r0 (x 0) 0) (snd e))) * nth r dx 0)).
+    2:{ intros r0 Hr0. rewrite ew2_nth by (try exact HB; apply (Hbnd r0 Hr0)). rewrite (softmax_nth sx sp dim Hsum (x 0) e r0 He Hr0). reflexivity. }
+    unfold fw_subtract.
+    apply (is_derive_eq _ _ (- (nth s dx 0 - gsum (fun r => exp (nth r (x 0) 0 - Stable.lse_fold (map (fun r0 => nth r0 (x 0) 0) (snd e))) * nth r dx 0) (snd e)))); [ring|].
+    apply (is_derive_opp (K := R_AbsRing) (V := R_NormedModule) (fun t => nth s (x t) 0 - Stable.lse_fold (map (fun r => nth r (x t) 0) (snd e))) 0).
+    apply (is_derive_minus (K := R_AbsRing) (V := R_NormedModule) (fun t => nth s (x t) 0) (fun t => Stable.lse_fold (map (fun r => nth r (x t) 0) (snd e))) 0 _ _ (Hx 0%nat s)).
+    apply (lse_group_deriv (fun r t => nth r (x t) 0) (fun r => nth r dx 0) (snd e) Hne). intros r0 _. apply (Hx 0%nat r0).
+  - rewrite nth_overflow by (rewrite (ew2_length sp _ _ _ HBp); lia).
+    apply (is_derive_ext (fun _ => 0)); [|apply (is_derive_const 0 0)].
+    intro t. rewrite nth_overflow; [reflexivity|]. rewrite (gather_length 0). lia.
+Qed.
 
 (* ------------------------------------------------------------------ the operators of real_family *)
 Definition un_dom (u : unop) (x : R) : Prop :=
@@ -414,9 +665,9 @@ Definition real_dom (o : rop) (xs : list (list R)) : Prop :=
   | RBin b sa sb => ew_dom sa sb (b_dom b) xs
   | RMax sx sy dim => ext_dom rgt sx sy dim xs      (* each maximum attained exactly once *)
   | RMin sx sy dim => ext_dom rlt sx sy dim xs
-  | RLogSumExp sx sy dim => lse_dom sx sy dim xs
+  | RLogSumExp sx sy dim => True
   | RSCE sx sy dim => sce_dom sx sy dim xs
-  | RSparseSCE sx sp ids dim => ssce_dom sx sp ids dim xs
+  | RSparseSCE sx sp ids dim => True
   end.
 
 Lemma un_slope u x : un_dom u x -> is_derive (un_fw u) x (un_bw u x (un_fw u x) 1).
